@@ -1558,3 +1558,5 @@ mut("sep_separator_only_shorter", ["C13", "C01"], "SEP-1|<&key::InternalKey as u
     note="separator accepted as soon as it is shorter")
 benign_patch("refactor_s12_06", "benign/set12_06_output_level_helper.diff", note="CompactionManifest::output_level() helper used for every `level + 1` (correct twin of seed C03-W; PAIR-14 had read `output_level() + 1` as a parent-level query)")
 benign_patch("refactor_s12_07", "benign/set12_07_write_snapshot_enumerate.diff", note="write_snapshot: one read lock, `for (level, files) in version.files.iter().enumerate()` (correct twin of seed C10-W)")
+mut("batch_decoder_loops_until_empty", ["C01", "C15"], "GRD-34|<batch::Batch as std::convert::TryFrom<&[u8]>>::try_from", patch="batch_decoder_loops_until_empty.diff",
+    note="the batch decoder ignores the stored count and decodes until the payload is used up")
